@@ -49,3 +49,22 @@ Theorem C15_single_file_alone : forall (H1 : bytes -> bytes) align pl f, 0 < pl 
   v1_assemble H1 true align pl [f] = (None, concat (map H1 (chunks pl f))).
 Proof. exact v1_assemble_single_file. Qed.
 Print Assumptions C15_single_file_alone.
+
+(* THE SOURCE'S OWN FORMULA.  Gen/GenFormulas.v is regenerated from /repo/torrentfile/torrent.py on every run: the expression
+   TorrentFile.assemble assigns to the length of the padding entry (translated over size = os.path.getsize(path) and
+   pl = self.piece_length), the test `if <that>:` under which the entry {"attr": "p", "length": <that>, "path": [".pad", str(<that>)]}
+   is appended right after the file's own entry.  For EVERY file size and piece length that length is the gap to the next piece
+   boundary: in [0, pl), completing the file to a multiple of pl, zero exactly when the file already ends on a boundary (so no
+   entry then), and the least such length. *)
+From Coq Require Import ZArith.
+From TF Require Import Gen.GenFormulas Proofs.FormulasInstance.
+Theorem C15_source_pad_is_the_gap : forall size pl : Z, (0 <= size)%Z -> (0 < pl)%Z ->
+  (0 <= gen_align_pad size pl < pl)%Z /\ ((size + gen_align_pad size pl) mod pl = 0)%Z /\
+  (gen_align_pad size pl = 0 <-> size mod pl = 0)%Z /\
+  (forall p : Z, 0 <= p -> (size + p) mod pl = 0 -> gen_align_pad size pl <= p)%Z.
+Proof. exact gen_align_pad_spec. Qed.
+Print Assumptions C15_source_pad_is_the_gap.
+
+Theorem C15_source_pad_entry_shape : gen_align_entry_shape = true.
+Proof. exact gen_align_entry_shape_ok. Qed.
+Print Assumptions C15_source_pad_entry_shape.
